@@ -156,6 +156,46 @@ def h_corrupt(ctx, pos, variant=1, twin=None):
             AM.crc16 = saved
 
 
+def h_hexlike(ctx, seed=0):
+    """a friendly address whose 48 characters all happen to be hexadecimal digits (found by search; concrete): it parses, and
+    every replacement of one character by another hexadecimal digit is rejected - a text that could be mistaken for another
+    input form gets no second reading.  (Concrete enumeration over one constructed address; the solver has no part in it.)"""
+    import base64
+    import random
+    from pytoniq_core.crypto.crc import crc16
+    rnd = random.Random(seed)
+    hexset = [c for c in STD if c in '0123456789abcdefABCDEF']
+    text = None
+    for _ in range(200000):
+        head = 'E' + rnd.choice('abcdef') + ''.join(rnd.choice(hexset) for _ in range(43))
+        for c45 in hexset:
+            raw = base64.b64decode(head + c45 + 'AA')
+            body = raw[:34]
+            cand = base64.b64encode(body + crc16(body)).decode()
+            if all(ch in hexset for ch in cand) and cand[:45] == head:
+                text = cand
+                break
+        if text:
+            break
+    ctx.require(text is not None, 'hex-like friendly text: found one')
+    if text is None:
+        return
+    a = Address(text)
+    ctx.require(a.to_str(is_url_safe=False) == text or a.to_str() == text, 'hex-like friendly text: parses and renders back')
+    bad = []
+    for pos in range(48):
+        for ch in hexset:
+            if ch != text[pos]:
+                t2 = text[:pos] + ch + text[pos + 1:]
+                try:
+                    Address(t2)
+                    bad.append(t2)
+                except Exception:
+                    pass
+    ctx.require(not bad, 'hex-like friendly text: every single replaced character is rejected ' + str(bad[:2]))
+    ctx.observe('text', text)
+
+
 def h_crc_lemmas(ctx, which):
     """technique B on the real crc16 loop body: the algebraic facts from which 'any single replaced character changes
     the checksum relation' follows for inputs of every length"""
@@ -199,6 +239,7 @@ def instances(tier, seed):
         yield 'h_roundtrip', dict(variant=0, wc_range=list(rng))
         yield 'h_roundtrip', dict(variant=1, wc_range=list(rng))
     yield 'h_other_equal', dict()
+    yield 'h_hexlike', dict(seed=seed)
     for w in ('inj_state', 'one_byte', 'two_bytes', 'straddle_crc'):
         yield 'h_crc_lemmas', dict(which=w)
     from harness import C18
@@ -218,6 +259,7 @@ BOUNDS = {'round trip': 'raw form and the 8 friendly variants; every workchain -
           'corruption': 'all 48 character positions x all 8 friendly variants; every non-zero 6-bit change of the '
                         'character, every workchain and account id; crc16 by lemma composition (facts discharged in h_crc_lemmas)',
           'crc lemmas': 'arbitrary register state and bytes (all lengths by induction), if crc16 has the fold shape'}
+BOUNDS['hex-like text'] = 'one constructed friendly address whose 48 characters are all hexadecimal digits, all 48 x 21 replacements by another hexadecimal digit (concrete, no solver)'
 OUTSIDE = ['non-canonical base64 text (padding, whitespace, mixed alphabets, characters outside the alphabet)',
            "int()'s liberal forms in the raw text ('+5', '_', whitespace)", 'text that is neither form']
 STUBS = ['base64: typed text rope; decode(encode(x)) = x; one character = one 6-bit group at a fixed position; alphabet excludes ":"',
